@@ -37,6 +37,12 @@ func strategyImpls(c *Ctx) []*ssa.Function {
 
 // decisionAction: the constant action passed to ports.NewRoutingDecision for the decision value v.
 func decisionAction(v ssa.Value) (string, string) {
+	return decisionActionAt(v, nil)
+}
+
+// decisionActionAt: as decisionAction, with the parameters of a result-building helper standing for the arguments of
+// the call `site` (`return s.rejected(model, reason, …)`).
+func decisionActionAt(v ssa.Value, site *ssa.Call) (string, string) {
 	call, ok := v.(*ssa.Call)
 	if !ok {
 		return "", ""
@@ -44,9 +50,48 @@ func decisionAction(v ssa.Value) (string, string) {
 	if describeCall(&call.Call).Name != "NewRoutingDecision" || len(call.Call.Args) < 3 {
 		return "", ""
 	}
-	a, _ := constString(call.Call.Args[1])
-	reason, _ := constString(call.Call.Args[2])
+	arg := func(x ssa.Value) ssa.Value {
+		if p, isP := x.(*ssa.Parameter); isP && site != nil && site.Call.StaticCallee() == p.Parent() {
+			for i, q := range p.Parent().Params {
+				if q == p && i < len(site.Call.Args) {
+					return site.Call.Args[i]
+				}
+			}
+		}
+		return x
+	}
+	a, _ := constString(arg(call.Call.Args[1]))
+	reason, _ := constString(arg(call.Call.Args[2]))
 	return a, reason
+}
+
+// resultsThroughHelper: `return h(...)` with h a repo function of one return: the values h returns (its parameters are
+// resolved by decisionActionAt); site is the call. Otherwise res unchanged and site nil.
+func resultsThroughHelper(c *Ctx, res []ssa.Value) ([]ssa.Value, *ssa.Call) {
+	if len(res) == 0 {
+		return res, nil
+	}
+	var site *ssa.Call
+	for i, v := range res {
+		ex, ok := v.(*ssa.Extract)
+		if !ok || ex.Index != i {
+			return res, nil
+		}
+		call, ok := ex.Tuple.(*ssa.Call)
+		if !ok || (site != nil && call != site) {
+			return res, nil
+		}
+		site = call
+	}
+	h := site.Call.StaticCallee()
+	if h == nil || h.Blocks == nil || !c.inRepo(h) {
+		return res, nil
+	}
+	rets := returnsOf(h)
+	if len(rets) != 1 || len(rets[0].Results) != len(res) {
+		return res, nil
+	}
+	return retResults(rets[0]), site
 }
 
 func fallbackFacts(b *ssa.BasicBlock) (notNone, notCompat bool) {
@@ -67,7 +112,7 @@ func fallbackFacts(b *ssa.BasicBlock) (notNone, notCompat bool) {
 			}
 		}
 		bo, ok := cf.Cond.(*ssa.BinOp)
-		if !ok || bo.Op != token.EQL || cf.True {
+		if !ok || !assertsNeq(bo, cf.True) {
 			continue
 		}
 		if s, ok := constString(bo.Y); ok {
@@ -101,7 +146,9 @@ func checkC09(c *Ctx, r *Report) {
 			if len(res) < 3 {
 				continue
 			}
-			action, reason := decisionAction(res[1])
+			// the whole result may be built by a helper (`return s.rejected(model, reason, …)`)
+			res, site := resultsThroughHelper(c, res)
+			action, reason := decisionActionAt(res[1], site)
 			key := fmt.Sprintf("%s:return:%s/%s", fname(fn), action, reason)
 			pr := pe.of(res[0])
 			kind := "unknown"
